@@ -244,6 +244,10 @@ def run(rep, facts, tier):
     # ------------------------------------------------------------ R03.7
     rule_03_7(rep, fx)
 
+    # ------------------------------------------------------------ R03.8 crossed roles (shared lint, rdv/swaplint.py)
+    from rdv import swaplint
+    swaplint.run_rule(rep, facts['default'], 'R03.8', ['rtps::reader', 'rtps::rtps_writer_proxy'])
+
 
 def _unfiltered(t, depth=0):
     """first() is applied to the missing_seqnums result directly (through deref/borrow only)."""
